@@ -30,13 +30,17 @@ Avg(S, w(_), row(_)) ==
 Init == c2 \in (-3)..(2 * M + 6) /\ b \in Bs /\ done = FALSE /\ res = <<>>
 \* all property-level answers: every subset of the edge samples, with and without the 0 Hz bin
 Answers(w(_), row(_)) == { Avg(InsideSure \cup e \cup z, w, row) : e \in SUBSET OnEdge, z \in SUBSET ZeroBin }
+SymAnswers(row(_)) == { Avg(InsideSure \cup e \cup z, WRect, row) : e \in {{}, OnEdge}, z \in SUBSET ZeroBin }
 Evaluate == /\ ~done /\ done' = TRUE
             /\ res' = [rectA |-> Answers(WRect, RowA), rectB |-> Answers(WRect, RowB),
                        triA |-> Answers(WTri, RowA), triB |-> Answers(WTri, RowB),
-                       iRectA |-> Avg(InsideSure \cup OnEdge, WRect, RowA), iTriB |-> Avg(InsideSure \cup OnEdge, WTri, RowB)]
+                       iRectA |-> Avg(InsideSure \cup OnEdge, WRect, RowA), iTriB |-> Avg(InsideSure \cup OnEdge, WTri, RowB),
+                       \* on a grid where every quantity is exact in binary the edges are decided exactly, and the kernel is a
+                       \* SYMMETRIC function of f - fc: both edge samples count (closed window) or neither (open window)
+                       symA |-> SymAnswers(RowA), symB |-> SymAnswers(RowB)]
             /\ UNCHANGED <<c2, b>>
 Next == Evaluate
-Refines == done => res.iRectA \in res.rectA /\ res.iTriB \in res.triB
+Refines == done => res.iRectA \in res.rectA /\ res.iTriB \in res.triB /\ res.iRectA \in res.symA /\ res.symA \subseteq res.rectA
 BetweenMinMax == done => \A v \in res.rectB \cup res.triB : RIsZero(v) \/ (RLe(R(1), v) /\ RLe(v, R(5)))
 EdgeOnly == InsideSure = {} /\ OnEdge # {}
 ExportCase == (Export /\ done) =>
